@@ -60,15 +60,15 @@ func submatchStrings(s string, im *mon.IndexMap, m *mon.MatchObs) []string {
 	for i, g := range m.Groups {
 		if len(g) > 0 {
 			last := g[len(g)-1]
-			out[i] = runeText(im, last.Index, last.Length)
+			out[i] = rawText(s, im, last.Index, last.Length)
 		}
 	}
 	return out
 }
 
-// runeText is the text the engine sees for a rune span: invalid bytes read as U+FFFD.
-func runeText(im *mon.IndexMap, idx, length int) string {
-	return string(im.Runes[idx : idx+length])
+// rawText is the text of a rune span as a substring of the original input (raw bytes).
+func rawText(s string, im *mon.IndexMap, idx, length int) string {
+	return s[im.Off[idx]:im.Off[idx+length]]
 }
 
 // entryPoints judges all entry points of re on the string s (which may hold
@@ -232,7 +232,7 @@ func entryPoints(re *regexp2.Regexp, s string, st epStats) (detail string, incon
 		if found {
 			wIdx = byteSpan(im, first.Index, first.Length)
 			wSub = submatchIndex(im, first)
-			wStr = runeText(im, first.Index, first.Length)
+			wStr = rawText(s, im, first.Index, first.Length)
 			wSubS = submatchStrings(s, im, first)
 			wB = bs[wIdx[0]:wIdx[1]]
 			for i := 0; i < len(wSub); i += 2 {
@@ -251,11 +251,8 @@ func entryPoints(re *regexp2.Regexp, s string, st epStats) (detail string, incon
 		cmpv("FindReaderSubmatchIndex", cre.FindReaderSubmatchIndex(strings.NewReader(s)), wSub)
 		cmpv("Find", cre.Find(bs), wB)
 		cmpv("FindSubmatch", cre.FindSubmatch(bs), wSubB)
-		if valid {
-			// with invalid bytes the text forms show U+FFFD for the engine and raw bytes for the index forms
-			cmpv("FindString", cre.FindString(s), wStr)
-			cmpv("FindStringSubmatch", cre.FindStringSubmatch(s), wSubS)
-		}
+		cmpv("FindString", cre.FindString(s), wStr)
+		cmpv("FindStringSubmatch", cre.FindStringSubmatch(s), wSubS)
 		for _, n := range []int{-1, 0, 1, 2} {
 			exp := mon.ExpectAll(chain, n, rtl)
 			var wI, wSI [][]int
@@ -266,7 +263,7 @@ func entryPoints(re *regexp2.Regexp, s string, st epStats) (detail string, incon
 				sp := byteSpan(im, m.Index, m.Length)
 				wI = append(wI, sp)
 				wSI = append(wSI, submatchIndex(im, m))
-				wS = append(wS, runeText(im, m.Index, m.Length))
+				wS = append(wS, rawText(s, im, m.Index, m.Length))
 				wSS = append(wSS, submatchStrings(s, im, m))
 				wBy = append(wBy, bs[sp[0]:sp[1]])
 			}
@@ -276,11 +273,9 @@ func entryPoints(re *regexp2.Regexp, s string, st epStats) (detail string, incon
 			cmpv("FindAllStringSubmatchIndex"+tag, normPairs(cre.FindAllStringSubmatchIndex(s, n)), normPairs(wSI))
 			cmpv("FindAllSubmatchIndex"+tag, normPairs(cre.FindAllSubmatchIndex(bs, n)), normPairs(wSI))
 			cmpv("FindAll"+tag, len(cre.FindAll(bs, n)), len(wBy))
-			if valid {
-				cmpv("FindAllString"+tag, fmt.Sprint(cre.FindAllString(s, n)), fmt.Sprint(wS))
-				cmpv("FindAllStringSubmatch"+tag, fmt.Sprint(cre.FindAllStringSubmatch(s, n)), fmt.Sprint(wSS))
-				cmpv("FindAllSubmatch"+tag, len(cre.FindAllSubmatch(bs, n)), len(wSS))
-			}
+			cmpv("FindAllString"+tag, fmt.Sprintf("%q", cre.FindAllString(s, n)), fmt.Sprintf("%q", wS))
+			cmpv("FindAllStringSubmatch"+tag, fmt.Sprintf("%q", cre.FindAllStringSubmatch(s, n)), fmt.Sprintf("%q", wSS))
+			cmpv("FindAllSubmatch"+tag, len(cre.FindAllSubmatch(bs, n)), len(wSS))
 		}
 	})
 	if in {
@@ -529,6 +524,6 @@ func runC02(r *core.Run) int {
 	r.Extras["bounds"] = map[string]any{"patterns": nPat, "exhaustive_len": 2, "directed_inputs_per_pattern": nDirected, "invalid_utf8_share": "1/4 of inputs"}
 	return r.Finish(
 		"random full-syntax ASTs, shape templates and harvested corpus patterns under random regex options (incl. RightToLeft/ECMAScript/RE2) and compile options; per pattern bounded-exhaustive and directed inputs, a quarter of them with injected invalid UTF-8; evaluation = one (pattern,input) for which ~60 observations (bool calls, string chain with ByteRange, StartingAt at every byte offset incl. argument errors, find-all with n in {-1,0,1,2}, all compat.Regexp methods, the enumerations inside ReplaceFunc, Replace and Split) are compared with the FindRunesMatch+FindNextMatch chain; non-trivial = distinct (pattern,input) whose chain has at least one match",
-		[]string{"the rune-API chain is the canonical observation (its own correctness is C01/C03/C07)", "text-returning adapter forms are compared on valid UTF-8 only (the engine sees U+FFFD, the adapter slices raw bytes)"},
+		[]string{"the rune-API chain is the canonical observation (its own correctness is C01/C03/C07)"},
 		map[string]int64{"evaluations": 20000, "distinct_nontrivial": 5000, "ep_compat.FindAllStringSubmatchIndex(n=-1)": 5000, "ep_Split-enumeration": 3000})
 }
